@@ -2600,7 +2600,7 @@ fn gen_stacks(rng: &mut Rng, cpu: u16, coherent: bool) -> Case {
     c.rg.push(Region { base: u64::MAX - 7, size: 0x20, patches: vec![] });
     // memory lists
     let perm = |rng: &mut Rng| -> Vec<usize> {
-        let mut v: Vec<usize> = match rng.below(8) {
+        let mut v: Vec<usize> = match rng.below(10) {
             0 => vec![0, 1],
             1 => vec![1, 0],
             2 => vec![0, 2, 1],
@@ -2608,6 +2608,7 @@ fn gen_stacks(rng: &mut Rng, cpu: u16, coherent: bool) -> Case {
             4 => vec![1, 3, 0, 4],
             5 => vec![0],
             6 => vec![1],
+            8 | 9 => vec![1, 3],
             _ => vec![3, 4, 1, 2],
         };
         if rng.chance(1, 10) {
@@ -2634,6 +2635,11 @@ fn gen_stacks(rng: &mut Rng, cpu: u16, coherent: bool) -> Case {
     // stack pointers of interest
     let sp_pick = |rng: &mut Rng| -> (u64, u64) {
         let (base, size, bp) = if rng.chance(2, 3) { (base_a, size_a, bp_a) } else { (base_b, size_b, bp_b) };
+        if coherent && bp != 0 && rng.chance(1, 8) {
+            // the last bytes of the region: no 64-bit word at sp, the chain still readable
+            let sp = base.wrapping_add(size).wrapping_sub(rng.range(1, 8));
+            return (sp & lim, bp & lim);
+        }
         if coherent && bp != 0 && rng.chance(5, 6) {
             // a context that belongs to the chain: sp a few words below the first frame record
             let sp = bp.wrapping_sub(rng.below(3) * w).max(base);
@@ -2705,6 +2711,33 @@ fn gen_stacks(rng: &mut Rng, cpu: u16, coherent: bool) -> Case {
     if rng.chance(1, 6) {
         add_extras(rng, &mut c);
     }
+    c
+}
+
+/// the start context's stack pointer lies in the last `k` bytes of the thread's own stack memory
+/// (no 64-bit word there) and the memory list — absent, or holding region B only — does not serve
+/// that address: the thread keeps its own memory, in which the frame-pointer chain (and, on 32-bit
+/// CPUs, the last word) is still readable
+fn tail_case(cpu: u16, k: u64, with_list: bool) -> Case {
+    let w: u64 = if matches!(cpu, 0 | 5 | 1) { 4 } else { 8 };
+    let (a, b, size) = (0x10000u64, 0x20000u64, 0x100u64);
+    let os = if cpu == 5 { 0x8102 } else { LINUX };
+    let mut c = empty_case(os, cpu);
+    c.mo.push(Mod { base: 0x40_0000, size: 0x1000, name: Name::ascii("mod") });
+    let mut patches = vec![
+        (0x20, word(a + 0x40, w)),
+        (0x20 + w, word(0x40_0310, w)),
+        (0x40, word(0, w)),
+        (0x40 + w, word(0x40_0420, w)),
+        (size - w, word(0x40_0530, w)),
+    ];
+    patches.sort();
+    c.rg.push(Region { base: a, size, patches });
+    c.rg.push(Region { base: b, size, patches: vec![] });
+    if with_list {
+        c.ml = vec![MlSection::L(vec![LItem::Pool(1)])];
+    }
+    c.th = Some(vec![Thread { id: 1, ctx: Ctx::R { ip: 0x40_0100, sp: a + size - k, fp: a + 0x20 }, stack: Some((a, Own::Pool(0))) }]);
     c
 }
 
@@ -2845,6 +2878,13 @@ impl Engine for Index {
                     for slot in [4u64, 8, 40, 62, 63] {
                         emit(stackmem_case(cpu, esp, in_a, slot).line());
                     }
+                }
+            }
+        }
+        for cpu in [0u16, 9, 12, 5, 1, 0x8003] {
+            for k in 0..=9u64 {
+                for with_list in [false, true] {
+                    emit(tail_case(cpu, k, with_list).line());
                 }
             }
         }
